@@ -505,20 +505,37 @@ fn run_c13(ctx: &mut Ctx) {
         }
     }
     // CLI -n mapping on a few sources
-    let ncli = ctx.tier.pick(4, 60);
+    let ncli = ctx.tier.pick(6, 60);
     for _ in 0..ncli {
         let mut files = crate::gen::static_files();
         files.insert("e.txt.txtpp".into(), b"one\ntwo\n".to_vec());
         let root = ctx.scratch.fresh();
         crate::util::materialize(&root, &files, &[]);
-        let a1 = crate::run::run_cli(&root, &["-q".into(), "e.txt".into()], &Default::default());
+        // option spellings and surroundings that must not matter: thread counts including 0, the
+        // only-if-needed flag, logging switched on through the environment
+        let extra: Vec<String> = [vec![], vec!["-j", "0"], vec!["-j", "1"], vec!["-N"], vec!["-N", "-j", "0"]][r.gen_range(0..5)].iter().map(|x: &&str| x.to_string()).collect();
+        let env: Vec<(String, String)> = match r.gen_range(0..4) {
+            0 => vec![("RUST_LOG".into(), "debug".into())],
+            1 => vec![("RUST_LOG".into(), "trace".into())],
+            _ => vec![],
+        };
+        let opts = crate::run::CliOpts { env: env.clone(), ..Default::default() };
+        let mut args1: Vec<String> = vec!["-q".into()];
+        args1.extend(extra.iter().cloned());
+        args1.push("e.txt".into());
+        let mut args2: Vec<String> = vec!["-q".into(), "-n".into()];
+        args2.extend(extra.iter().cloned());
+        args2.push("e.txt".into());
+        let a1 = crate::run::run_cli(&root, &args1, &opts);
         let on = std::fs::read(root.join("e.txt")).unwrap_or_default();
-        let a2 = crate::run::run_cli(&root, &["-q".into(), "-n".into(), "e.txt".into()], &Default::default());
+        let _ = std::fs::remove_file(root.join("e.txt"));
+        let a2 = crate::run::run_cli(&root, &args2, &opts);
         let off = std::fs::read(root.join("e.txt")).unwrap_or_default();
         ctx.evals += 2;
         ctx.count("cli_runs", 2);
+        ctx.cover("cli_surroundings", &format!("{extra:?} {env:?}"));
         if a1.code != Some(0) || a2.code != Some(0) || on != b"one\ntwo\n" || off != b"one\ntwo" {
-            ctx.violation("C13:cli-flag", format!("CLI: default gives {} (exit {:?}), -n gives {} (exit {:?})", show(&on), a1.code, show(&off), a2.code), json!({"kind": "cli"}));
+            ctx.violation("C13:cli-flag", format!("CLI `txtpp {}` gives {} (exit {:?}), `txtpp {}` gives {} (exit {:?}); environment {env:?}", args1.join(" "), show(&on), a1.code, args2.join(" "), show(&off), a2.code), json!({"kind": "cli"}));
         }
         ctx.scratch.discard(&root);
     }
